@@ -148,7 +148,13 @@ func (this *ClientImpl) NewAccount(label string, typeCode keypair.KeyType, curve
 	}
 	address := types.AddressFromPubKey(pubkey)
 	addressBase58 := address.ToBase58()
-	prvSecret, err := keypair.EncryptPrivateKey(prvkey, addressBase58, passwd)
+	// encrypt with the wallet's own scrypt parameters: they are what getAccount decrypts with
+	var prvSecret *keypair.ProtectedKey
+	if this.walletData.Scrypt != nil {
+		prvSecret, err = keypair.EncryptWithCustomScrypt(prvkey, addressBase58, passwd, this.walletData.Scrypt)
+	} else {
+		prvSecret, err = keypair.EncryptPrivateKey(prvkey, addressBase58, passwd)
+	}
 	if err != nil {
 		return nil, fmt.Errorf("encryptPrivateKey error:%s", err)
 	}
